@@ -118,6 +118,14 @@ func runSys(t *testing.T, plan *Plan, prof *Profile) *Result {
 			if prof.NonTrivial != nil {
 				res.NonTrivial = prof.NonTrivial(s)
 			}
+			for _, m := range s.Mon {
+				if x, ok := m.(interface{ FillExtra(map[string]string) }); ok {
+					if res.Extra == nil {
+						res.Extra = map[string]string{}
+					}
+					x.FillExtra(res.Extra)
+				}
+			}
 			for st := range s.Rec.States {
 				res.StateHashes = append(res.StateHashes, hash16(st))
 			}
